@@ -93,8 +93,12 @@ func rejectsScenario(k scenKey) *Scenario {
 	sc := newScenario(k, g)
 	b := &builder{g: g, r: r, sc: sc}
 	sc.BaseWorld = b.world()
+	b.simple("badrevert") // RevertHead on the empty chain
+	b.rejectedTampered("newroot")
 	b.store(eventfulSpec(g, r, ""))
+	b.rejectedTampered("oldroot")
 	b.finalise(eventfulSpec(g, r, ""))
+	b.rejectedTampered("newroot")
 	b.revert()
 	b.store(eventfulSpec(g, r, ""))
 	if !b.rejectedParent() {
@@ -301,6 +305,39 @@ func cloneGen(g *lib.ChainGen, r *lib.RNG) *lib.ChainGen {
 	return &c
 }
 
+var initFaultOps = []string{"snap", "restart", "revert", "store"}
+
+// boundaryInitFault: the one situation in which a lazy filter initialisation WRITES (a fill that
+// reaches the end of a window persists it): snapshot with next = 8190, blocks 8190 and 8191
+// stored, process killed. The first call of the new process is a snapshot write, a graceful
+// restart, a RevertHead or a Store (variant = seed %% 4); every commit — the initialisation's
+// window write among them — fails once / is a crash point.
+func boundaryInitFaultScenario(k scenKey) *Scenario {
+	bb := getBoundaryBase(k.DstNew)
+	r := lib.NewRNG(k.Seed)
+	g := cloneGen(bb.g, r)
+	sc := newScenario(k, g)
+	sc.SrcNew = k.DstNew
+	sc.Base = bb.graceful
+	b := &builder{g: g, r: r, sc: sc}
+	sc.BaseWorld = b.world()
+	b.store(eventfulSpec(g, r, ""))
+	b.store(eventfulSpec(g, r, ""))
+	b.simple("kill")
+	switch initFaultOps[k.Seed%4] {
+	case "snap":
+		b.simple("snap")
+	case "restart":
+		b.simple("restart")
+	case "revert":
+		b.revert()
+		b.store(eventfulSpec(g, r, ""))
+	case "store":
+	}
+	b.store(eventfulSpec(g, r, ""))
+	return sc
+}
+
 // boundary: histories around the 8192-block window boundary. directed = the fixed shape
 // store×3, revert×2 (back across the boundary), store×2, kill, store; otherwise random.
 func boundaryScenario(k scenKey, graceful, directed bool, nops int) *Scenario {
@@ -368,6 +405,8 @@ func buildScenario(k scenKey, f lib.Flags) *Scenario {
 		sc = boundaryPruneScenario(k, false)
 	case "boundary-prune-graceful":
 		sc = boundaryPruneScenario(k, true)
+	case "boundary-init-fault":
+		sc = boundaryInitFaultScenario(k)
 	case "boundary-directed-killed":
 		sc = boundaryScenario(k, false, true, 0)
 	case "boundary-directed-graceful":
@@ -454,6 +493,7 @@ func main() {
 	r := &runner{res: res, f: f, sem: make(chan struct{}, workers)}
 	var probeProblem string
 	r.fixes, probeProblem = probeFixes()
+	checkVariantAgainstKnown(res, r.fixes)
 	if probeProblem != "" {
 		// the two-block history the probe runs (store, store with the last commit failing, one
 		// revert of the filter) did not behave like any variant of the code
@@ -461,14 +501,14 @@ func main() {
 			"of the same store; store block 1 with its last commit failing): " + probeProblem,
 			Replay: map[string]any{"scenario": "probe", "seed": 1}})
 	}
-	res.Note("repairs detected in the code under test (reset-on-error, drop-snapshot-on-revert, drop-previous-window-on-crossing): %s", r.fixes)
+	res.Note("repairs detected in the code under test (reset-on-error, drop-snapshot-on-revert, drop-previous-window-on-crossing, init-error-not-cached): %s", r.fixes)
 	res.SetExtra("repairs_detected", r.fixes)
 	if f.Driver != "" {
 		r.drivers = make(chan *lib.Driver, workers)
 		for i := 0; i < workers; i++ {
 			d, err := lib.StartDriver(f.Driver)
 			if err != nil {
-				res.Note("driver: %v", err)
+				res.Fatalf("the Lean model driver %q did not start: %v", f.Driver, err)
 				lib.Finish(f, res)
 			}
 			defer d.Close()
@@ -503,6 +543,17 @@ func main() {
 				keys = append(keys, scenKey{"boundary-prune-graceful", f.Seed, dstNew, dstNew, "memory"})
 			}
 		}
+		// the four first calls after the kill; backends alternate with the seed (both in thorough)
+		for v := uint64(0); v < 4; v++ {
+			dstNew := (f.Seed+v)%2 == 0
+			keys = append(keys, scenKey{"boundary-init-fault", f.Seed*4 + v, dstNew, dstNew, "memory"})
+			if f.Thorough() {
+				keys = append(keys, scenKey{"boundary-init-fault", f.Seed*4 + v, !dstNew, !dstNew, "memory"})
+			}
+		}
+		// Pebble v2 in the quick tier too
+		keys = append(keys, scenKey{"short", f.Seed*1000 + 900, f.Seed%2 == 0, f.Seed%2 == 1, "pebble"})
+		keys = append(keys, scenKey{"rejects", f.Seed*1000 + 900, f.Seed%2 == 1, f.Seed%2 == 0, "pebble"})
 		for _, dstNew := range []bool{false, true} {
 			keys = append(keys, scenKey{"boundary-directed-killed", f.Seed, dstNew, dstNew, "memory"})
 			keys = append(keys, scenKey{"boundary-directed-graceful", f.Seed, dstNew, dstNew, "memory"})
